@@ -18,7 +18,7 @@ From V Require Import Base.Int Base.IO.
 From V Require Import Spec.Zone Proofs.TzCommon.
 From V Require Spec.Gregorian.
 From V Require Import Model.TzParser Model.TzRule Model.TzLookup Model.C05 Proofs.C05 Proofs.C05Composite Proofs.C05Glue Proofs.C05Judge Proofs.C05Wide Proofs.C05Full Proofs.C05Holds Proofs.C05Ops Proofs.C05OpsZones Proofs.C05OpsComposite Proofs.C05OpsAll.
-From V Require Model.Date Model.DateTime Model.Scan Model.FromStr Model.C02 Proofs.C05Conv.
+From V Require Model.Date Model.DateTime Model.Scan Model.FromStr Model.C02 Model.TimeDelta Proofs.C05Conv Proofs.C05Asg Proofs.C03 Proofs.C06.
 Import ListNotations.
 Open Scope Z_scope.
 
@@ -1031,6 +1031,52 @@ Theorem C05_holds_conv : forall b zm xs zone sz,
   J.judge B"lz.conv" [VStr b; zm; xs] (run B"lz.conv" [VStr b; zm; xs]) = JOk.
 Proof. exact Proofs.C05Conv.holds_conv. Qed.
 Print Assumptions C05_holds_conv.
+
+(* lz.asg: impl AddAssign<TimeDelta> / SubAssign<TimeDelta> / AddAssign<Duration> / SubAssign<Duration> for
+   DateTime<Tz> at Tz = Local (public route).  The zone is resolved AGAIN at the new instant:
+   for every operand a (whatever offset it carries), every valid duration rhs and every supported naive value n'
+   whose instant is the operand's instant moved by rhs, the result is exactly what Local.from_utc_datetime gives
+   at n' - in particular offset after `+=` = offset_at(new instant), the old offset is not kept. *)
+Theorem C05_add_assign_reresolves : forall zone a rhs n' v,
+  Proofs.C03.nvalid (DateTime.dz_utc a) -> Proofs.C06.valid rhs -> Proofs.C03.nvalid n' ->
+  Proofs.C03.inst n' = Proofs.C03.inst (DateTime.dz_utc a) + Proofs.C06.ns rhs ->
+  from_utc_datetime zone n' = v -> local_add_assign zone a rhs = v.
+Proof. exact Proofs.C05Asg.add_assign_at. Qed.
+Print Assumptions C05_add_assign_reresolves.
+Theorem C05_sub_assign_reresolves : forall zone a rhs n' v,
+  Proofs.C03.nvalid (DateTime.dz_utc a) -> Proofs.C06.valid rhs -> Proofs.C03.nvalid n' ->
+  Proofs.C03.inst n' = Proofs.C03.inst (DateTime.dz_utc a) - Proofs.C06.ns rhs ->
+  from_utc_datetime zone n' = v -> local_sub_assign zone a rhs = v.
+Proof. exact Proofs.C05Asg.sub_assign_at. Qed.
+Print Assumptions C05_sub_assign_reresolves.
+(* Panic exactly when the checked form of the naive addition is None (the operators' documented panic); a
+   value goes to the lookup at that value *)
+Theorem C05_assign_panics_iff_checked_none : forall zone a rhs,
+  (DateTime.ndt_checked_add_signed (DateTime.dz_utc a) rhs = Val None -> local_add_assign zone a rhs = Panic) /\
+  (DateTime.ndt_checked_sub_signed (DateTime.dz_utc a) rhs = Val None -> local_sub_assign zone a rhs = Panic) /\
+  (forall b, DateTime.ndt_checked_add_signed (DateTime.dz_utc a) rhs = Val (Some b) ->
+     local_add_assign zone a rhs = from_utc_datetime zone b) /\
+  (forall b, DateTime.ndt_checked_sub_signed (DateTime.dz_utc a) rhs = Val (Some b) ->
+     local_sub_assign zone a rhs = from_utc_datetime zone b).
+Proof. exact Proofs.C05Asg.assign_panics. Qed.
+Print Assumptions C05_assign_panics_iff_checked_none.
+(* the core::time::Duration forms: TimeDelta::from_std(..).expect(..) first, then the TimeDelta form *)
+Theorem C05_assign_std : forall zone a ds dn,
+  match Model.TimeDelta.from_std ds dn with
+  | Some rhs => local_add_assign_std zone a ds dn = local_add_assign zone a rhs /\
+                local_sub_assign_std zone a ds dn = local_sub_assign zone a rhs
+  | None => local_add_assign_std zone a ds dn = Panic /\ local_sub_assign_std zone a ds dn = Panic
+  end.
+Proof. exact Proofs.C05Asg.assign_std. Qed.
+Print Assumptions C05_assign_std.
+(* dispatcher against judge: every zone under the contract, every delta, every batch; the judge (Spec.Zone's
+   zone_off at the NEW instant) accepts the model's output *)
+Theorem C05_holds_asg : forall b zm d xs zone sz,
+  lookup_ok zone sz -> parse b = Val (Ok zone) -> J.dec_zone (VStr b) zm = Some sz ->
+  J.judge B"lz.asg" [VStr b; zm; VInt d; xs] (run B"lz.asg" [VStr b; zm; VInt d; xs]) <> JSkip ->
+  J.judge B"lz.asg" [VStr b; zm; VInt d; xs] (run B"lz.asg" [VStr b; zm; VInt d; xs]) = JOk.
+Proof. exact Proofs.C05Asg.holds_asg. Qed.
+Print Assumptions C05_holds_asg.
 
 (* the contract, for the three kinds of zone *)
 Theorem C05_lookup_table : forall zone ps first,
